@@ -95,8 +95,8 @@ def liftO (f : Fault) : Option α → Except Fault α
   | some a => .ok a
   | none => .error f
 
-/-- unsigned subtraction as C does it on `unsigned int` -/
-def usub (x y : Nat) : Nat := (x + 2 ^ 32 - y % 2 ^ 32) % 2 ^ 32
+/-- `x - y` as C computes it on `unsigned int` operands (both `< 2^32`): wraps when `y > x` -/
+def usub (x y : Nat) : Nat := if y ≤ x then x - y else x + 4294967296 - y
 
 variable {S : Type}
 
@@ -185,25 +185,33 @@ def finishSpill (A : Alg S) (H : S) (buf : List UInt8) (bytesHave : Nat) :
 def wiped (A : Alg S) : Ctx S :=
   { H := A.zero, buffer := List.replicate A.B 0, count := 0, countHi := 0 }
 
-/-- `*_finish (ctx, digest)`: digest and the (wiped) context -/
-def finish (A : Alg S) (c : Ctx S) : Except Fault (List UInt8 × Ctx S) :=
-  let numBits := (c.count * 8) % 2 ^ 64          -- count << 3
-  let bytesHave := c.count % A.B
-  match bufWrite c.buffer bytesHave [0x80] with
+/-- the body of `*_finish` after `num_bits` and `bytes_have` have been computed;
+    `lenBytes` is what `_MHD_PUT_64BIT_xx (…, num_bits)` stores -/
+def finishCore (A : Alg S) (H : S) (buffer : List UInt8) (bytesHave : Nat) (lenBytes : List UInt8) :
+    Except Fault (List UInt8 × Ctx S) :=
+  -- ((uint8_t *) ctx->buffer)[bytes_have++] = 0x80;
+  match bufWrite buffer bytesHave [0x80] with
   | none => .error .bufWrite
   | some buf1 =>
-    match finishSpill A c.H buf1 (bytesHave + 1) with
+    match finishSpill A H buf1 (bytesHave + 1) with
     | .error e => .error e
     | .ok (H2, buf2, bytesHave2) =>
+      -- memset (buffer + bytes_have, 0, BLOCK_SIZE - SIZE_OF_LEN_ADD - bytes_have);
       match bufFill buf2 bytesHave2 (usub (A.B - A.L) bytesHave2) with
       | none => .error .bufFill
       | some buf3 =>
-        match bufWrite buf3 (A.B - A.L) (A.putLen c.countHi numBits) with
+        match bufWrite buf3 (A.B - A.L) lenBytes with
         | none => .error .bufWrite
         | some buf4 =>
           match callTransform A false H2 buf4 with
           | .error e => .error e
           | .ok H3 => .ok (A.digest H3, wiped A)
+
+/-- `*_finish (ctx, digest)`: digest and the (wiped) context -/
+def finish (A : Alg S) (c : Ctx S) : Except Fault (List UInt8 × Ctx S) :=
+  let numBits := (c.count * 8) % 2 ^ 64          -- count << 3
+  let bytesHave := c.count % A.B
+  finishCore A c.H c.buffer bytesHave (A.putLen c.countHi numBits)
 
 /-- feed a list of (address, chunk) pairs -/
 def feed (A : Alg S) (c : Ctx S) : List (Nat × List UInt8) → Except Fault (Ctx S)
